@@ -152,11 +152,27 @@ let first_diff (want : string list) (got : string list) : string =
 
 let has_big (es : entry_c list) = List.exists (fun e -> not (fields_small e.e_payload)) es
 
-let predict (c : string) (obs : string) : string * string * bool =
+(* calls recorded by the reflection side-car are appended by the harness as  sidecar=<n> *)
+let strip_sidecar (obs : string) : string * bool =
+  match List.rev (split_blank obs) with
+  | last :: rest when String.length last > 8 && String.sub last 0 8 = "sidecar=" -> (String.concat " " (List.rev rest), true)
+  | _ -> (obs, false)
+
+let strip_r s = if String.length s > 0 && s.[String.length s - 1] = 'r' then String.sub s 0 (String.length s - 1) else s
+
+let rec predict (c : string) (obs : string) : string * string * bool =
+  let (obs0, sidecar) = strip_sidecar obs in
+  if sidecar then begin
+    (* the specification: every call is received by the TARGET; judge the rest of the line as usual,
+       the verdict is the side-car finding *)
+    let (p, _, nt) = predict c obs0 in
+    (p, "BAD:" ^ (List.hd (split_blank c)) ^ ":calls-received-by-the-reflection-side-car", nt)
+  end else
   match split_blank c with
   | "json" :: mode :: _shared :: _clients :: ninst :: tmo :: _n :: entries ->
       let es = List.map parse_entry entries in
       let timeout = ns_of_ms tmo in
+      let mode = strip_r mode in
       if mode = "d" then begin
         let items = split_blank obs in
         let calls = observed_calls (List.concat_map (fun it -> match String.split_on_char ';' it with [_; cs] -> String.split_on_char '&' cs | _ -> []) items) in
@@ -233,7 +249,7 @@ let predict (c : string) (obs : string) : string * string * bool =
       let render (res : outs list) : string list =
         List.map (fun os -> if os = [] then "none" else String.concat "|" (List.map (fun o -> render_outcome respond (out_code grpc_code respond o) o) os)) res in
       let h0 = heap_of defs in
-      let (h1, m) = scen_model users defs scens h0 (sguns_of (nat_of_int (int_of_string ninst)) timeout) O O order in
+      let (h1, m) = scen_model users defs scens h0 (sguns_of (nat_of_int (int_of_string (strip_r ninst))) timeout) O O order in
       let sp = scen_spec users defs scens timeout h0 O O order in
       let want = render sp in
       let ok = (String.concat "#" want = obs) in
